@@ -130,6 +130,11 @@ func (tx *Tx) Rollback() error {
 		}
 	}
 
+	// an XA branch has no driver transaction of its own (Conn.BeginTx passes a nil origin): it is
+	// ended with XA END / XA ROLLBACK on the connection
+	if tx.target == nil {
+		return nil
+	}
 	return tx.target.Rollback()
 }
 
